@@ -81,6 +81,69 @@ def struct_generated_methods_shape():
     return 'bool', 'true'
 
 
+def struct_member_write_returns_readback():
+    """__set_name__, combined layout: the generated write_<member> (inner function wfunc) consists of exactly
+    valuedict = dict(getattr(self, name)); valuedict[membername] = value; getattr(self, struct_write_name)(valuedict) as a
+    statement of its own (result not used); and ONE return, the last statement: `return getattr(self, rname)()` - the value
+    READ BACK through read_<member> after the struct was written, not the requested one.  rname is the default argument
+    bound to the rname = f'read_{pname}' of the same loop iteration, struct_write_name = f'write_{name}'"""
+    sn = find_func(_struct(), '__set_name__')
+    w = _inner_func(sn, 'wfunc')
+    args = w.args
+    if args.vararg or args.kwarg or args.kwonlyargs or args.posonlyargs:
+        raise Shape('StructParam wfunc: unexpected signature')
+    names = [a.arg for a in args.args]
+    if names[:2] != ['self', 'value']:
+        raise Shape('StructParam wfunc: expected (self, value, ...)')
+    defaults = dict(zip(names[len(names) - len(args.defaults):], (_norm(d) for d in args.defaults)))
+
+    def resolve(node):
+        t = _norm(node)
+        return defaults.get(t, t)
+
+    returns = walk_type(w, ast.Return)
+    body = w.body
+    ok = (len(body) == 4 and len(returns) == 1 and returns[0] is body[-1]
+          and not walk_type(w, (ast.Yield, ast.YieldFrom, ast.Try, ast.While, ast.For, ast.If, ast.IfExp)))
+    if ok:
+        # the return: getattr(self, <rname>)() without arguments
+        v = body[-1].value
+        ok = (isinstance(v, ast.Call) and not v.args and not v.keywords and isinstance(v.func, ast.Call)
+              and _norm(v.func.func) == 'getattr' and len(v.func.args) == 2 and not v.func.keywords
+              and _norm(v.func.args[0]) == 'self' and resolve(v.func.args[1]) == 'rname')
+    if ok:
+        # the struct write: an expression statement getattr(self, <struct_write_name>)(valuedict)
+        st = body[2]
+        c = st.value if isinstance(st, ast.Expr) else None
+        ok = (isinstance(c, ast.Call) and len(c.args) == 1 and not c.keywords and _norm(c.args[0]) == 'valuedict'
+              and isinstance(c.func, ast.Call) and _norm(c.func.func) == 'getattr' and len(c.func.args) == 2
+              and _norm(c.func.args[0]) == 'self' and resolve(c.func.args[1]) == 'struct_write_name')
+    if ok:
+        a0, a1 = body[0], body[1]
+        ok = (isinstance(a0, ast.Assign) and _norm(a0.targets[0]) == 'valuedict' and len(a0.targets) == 1
+              and isinstance(a0.value, ast.Call) and _norm(a0.value.func) == 'dict' and len(a0.value.args) == 1
+              and isinstance(a0.value.args[0], ast.Call) and _norm(a0.value.args[0].func) == 'getattr'
+              and _norm(a0.value.args[0].args[0]) == 'self' and resolve(a0.value.args[0].args[1]) == 'name'
+              and isinstance(a1, ast.Assign) and len(a1.targets) == 1 and isinstance(a1.targets[0], ast.Subscript)
+              and _norm(a1.targets[0].value) == 'valuedict' and resolve(a1.targets[0].slice) == 'membername'
+              and _norm(a1.value) == 'value')
+    stores = [n.id for n in ast.walk(w) if isinstance(n, ast.Name) and not isinstance(n.ctx, ast.Load)]
+    ok = ok and stores == ['valuedict']
+    # the names bound by the defaults: rname = f'read_{pname}' assigned once in the member loop, before wfunc;
+    # struct_write_name = f'write_{name}' assigned once
+    snn = _norm(sn)
+    ok = (ok and snn.count("rname=f'read_{pname}'") == 1 and snn.count("struct_write_name=f'write_{name}'") == 1
+          and snn.count('pname=param.name') == 1
+          and snn.index("rname=f'read_{pname}'") < snn.index('defwfunc('))
+    # installed as write_<pname> unless the programmer wrote one
+    guard = [n for n in walk_type(sn, ast.If) if _norm(n.test) == 'nothasattr(owner,wname)']
+    ok = (ok and len(guard) == 1 and w in guard[0].body and 'setattr(owner,wname,wfunc)' in _norm(guard[0])
+          and snn.count("wname=f'write_{pname}'") == 1)
+    if not ok:
+        raise Shape('StructParam generated write_<member> does not return the value read back by read_<member>()')
+    return 'bool', 'true'
+
+
 # ------------------------------------------------------------------ FloatEnumParam
 def floatenum_value_derived_from_index():
     """__get__ returns valuedict[<index parameter>.value]; finish registers trigger_setter on the index parameter;
@@ -239,6 +302,42 @@ def check_function_installed_for_limits():
     return 'bool', 'true'
 
 
+def limit_check_installed_per_class_dict():
+    """__init_subclass__, inside `for postfix in ('_limits', '_min', '_max')` with limname = pname + postfix and
+    cname = 'check_' + pname: under `if limname in accessibles:` the class is
+    base = next(b for b in reversed(cls.__mro__) if limname in b.__dict__) and the generated check is put there under the
+    guard `if cname not in base.__dict__:` - membership in the __dict__ of THAT class, not attribute lookup (which would
+    also find a check_<p> inherited from an ancestor).  The functions the write wrapper calls are
+    cfuncs = tuple(filter(None, (b.__dict__.get(cname) for b in cls.__mro__)))"""
+    f = find_func(find_class(parse(MOD), 'HasAccessibles'), '__init_subclass__')
+    fors = [n for n in walk_type(f, ast.For) if _norm(n.target) == 'postfix']
+    if len(fors) != 1:
+        raise Shape('postfix loop not found')
+    loop = fors[0]
+    body = loop.body
+    ok = (len(body) == 2 and not loop.orelse and isinstance(body[0], ast.Assign)
+          and _norm(body[0]) == 'limname=pname+postfix' and isinstance(body[1], ast.If)
+          and _norm(body[1].test) == 'limnameinaccessibles' and not body[1].orelse)
+    if ok:
+        inner = body[1].body
+        ok = (len(inner) == 2 and isinstance(inner[0], ast.Assign)
+              and _norm(inner[0]) == 'base=next((bforbinreversed(cls.__mro__)iflimnameinb.__dict__))'
+              and isinstance(inner[1], ast.If) and not inner[1].orelse
+              and _norm(inner[1].test) == 'cnamenotinbase.__dict__'
+              and len(inner[1].body) == 1
+              and _norm(inner[1].body[0]) == 'setattr(base,cname,lambdaself,value,pname=pname:self.checkLimits(value,pname))')
+    s = _norm(f)
+    # the generated check is installed nowhere else; cname / cfuncs as modelled; nothing removes a check_ function
+    ok = (ok and s.count('self.checkLimits(') == 1 and s.count('setattr(base,') == 1
+          and s.count("cname='check_'+pname") == 1 and 'delattr' not in s
+          and s.count('cfuncs=tuple(filter(None,(b.__dict__.get(cname)forbincls.__mro__)))') == 1
+          and s.count('cfuncs=') == 1 and s.count('check_funcs=cfuncs') == 1
+          and s.index("cname='check_'+pname") < s.index('forpostfixin') < s.index('cfuncs=tuple('))
+    if not ok:
+        raise Shape('generated check_<p> is not installed under `cname not in base.__dict__` on the class defining the limit')
+    return 'bool', 'true'
+
+
 def limit_postfixes():
     """Limit.POSTFIXES"""
     v = const(find_assign(find_class(parse(PAR), 'Limit'), 'POSTFIXES'))
@@ -336,10 +435,10 @@ def callbacks_before_update_sent():
     return 'bool', 'true'
 
 
-FACTS = [struct_callbacks_shape, struct_generated_methods_shape,
+FACTS = [struct_callbacks_shape, struct_generated_methods_shape, struct_member_write_returns_readback,
          floatenum_value_derived_from_index, floatenum_write_selects_closest, floatenum_write_returns_current_value,
          floatenum_init_shape,
-         check_limits_shape, check_function_installed_for_limits, limit_postfixes, limit_datatype_from_base,
+         check_limits_shape, check_function_installed_for_limits, limit_check_installed_per_class_dict, limit_postfixes, limit_datatype_from_base,
          limitstype_refuses_inverted,
          activate_control_shape, self_controlled_shape, update_target_lookup_by_member,
          callbacks_before_update_sent]
